@@ -11,6 +11,9 @@ from common import pmap
 SIMPLE_MODS = ["NAc", "N", "A", "6S", "3S", "4S", "2S", "6P", "3Me", "2Ac", "4Ac", "6Ac", "5Ac", "5Gc", "3Bz", "2F", "6d", "2d", "9Ac", "4Me", "3P", "2N"]
 
 
+BASE_OF = {}
+
+
 def candidate_names(vocab, tier):
     names = []
     for s in vocab.sugars_p:
@@ -21,6 +24,7 @@ def candidate_names(vocab, tier):
     for s in base:
         for m in SIMPLE_MODS:
             names.append(s + m)
+            BASE_OF[s + m] = (s, m)
     names += ["Neu5Ac", "Neu5Gc", "Neu5Ac9Ac", "Neu4,5Ac2", "GlcNAc6S", "GalNAc4S", "IdoA2S", "GlcNS", "GlcNS6S", "GlcN", "GalN", "ManN", "Kdn", "Neu5,9Ac2",
               "1,6-Anhydro-Glc", "3,6-Anhydro-Gal", "1,6-Anhydro-Man", "2,6-Anhydro-Man", "MurNAc", "Bac2,4NAc", "Leg5,7Ac2", "Pse5,7Ac", "GlcA3S", "ManA", "GulA", "GalA",
               "Glc6Ole", "Glc3Lin", "Glc2Cin", "LDManHep", "DDManHep", "6dTal", "6dAlt", "Gal3,4Pyr"]
@@ -34,14 +38,15 @@ def candidate_names(vocab, tier):
 
 def well_formed_name(name, infos):
     """positional modifications of the generated vocabulary must sit on a position that bears a free OH/NH2 in the base sugar"""
-    import re
-    m = re.match(r"^([A-Z][a-z]+f?)(\d)(S|P|Me|Ac|Gc|Bz|F|d)$", name)
-    if not m:
+    if name not in BASE_OF:
         return True
-    base = infos.get(m.group(1))
+    b, m = BASE_OF[name]
+    if not m[0].isdigit():
+        return True
+    base = infos.get(b)
     if not base or not base.get("ok"):
         return False
-    return int(m.group(2)) in [p for p, _ in base.get("free", [])]
+    return int(m[0]) in [p for p, _ in base.get("free", [])]
 
 
 def _info(name):
@@ -51,7 +56,8 @@ def _info(name):
 class ChemVocab:
     def __init__(self, vocab, tier):
         self.vocab = vocab
-        infos = pmap(_info, candidate_names(vocab, tier))
+        cands = candidate_names(vocab, tier)
+        infos = pmap(_info, cands + [b for b, _ in BASE_OF.values() if b not in cands])
         self.divergent = sorted(n for n, i in infos if i.get("ok") and i.get("cyclic") and i.get("numbering_agrees") is False)
         infos = [(n, i) for n, i in infos if i.get("numbering_agrees") is not False and well_formed_name(n, dict(infos))]
         self.info = {n: i for n, i in infos if i.get("ok") and i.get("cyclic") and i.get("anomeric")}
